@@ -719,9 +719,20 @@ func (w *World) exec(sv *Server, c *call) (res sqlResult, deferred bool) {
 			ts, _ = strconv.ParseFloat(m[1], 64)
 		}
 		own := float64(s.t0.Add(sv.replMonTS).UnixMilli()) / 1000
+		if sv.HasChannel {
+			// a replica's copy of the timestamp row is as old as its applier is behind
+			// (independent of the IO thread: the age of the oldest transaction not yet applied)
+			if len(sv.Relay) == 0 {
+				return one([]string{"delay"}, int64(0)), false
+			}
+			return one([]string{"delay"}, int64((s.now()-sv.Relay[0].At)/time.Second)), false
+		}
 		return one([]string{"delay"}, int64(ts-own)), false
 	case strings.HasPrefix(q, "CREATE TABLE IF NOT EXISTS"):
-		sv.hasReplMon = true
+		// (the DDL replicates: every server of the cluster has the table from now on)
+		for _, x := range w.servers {
+			x.hasReplMon = true
+		}
 		return sqlResult{}, false
 	case strings.HasPrefix(q, "INSERT INTO"):
 		if !sv.hasReplMon {
